@@ -430,10 +430,14 @@ class Queue(Greenlet):
         tempfails = []
         permfails = []
         for rcpt, rcpt_res in results.items():
+            # An address may be listed more than once in the envelope; the
+            # result given for it settles every one of its positions.
+            positions = [i for i, r in enumerate(envelope.recipients)
+                         if r == rcpt]
             if rcpt_res is None or isinstance(rcpt_res, Reply):
-                delivered.add(envelope.recipients.index(rcpt))
+                delivered.update(positions)
             elif isinstance(rcpt_res, PermanentRelayError):
-                delivered.add(envelope.recipients.index(rcpt))
+                delivered.update(positions)
                 permfails.append((rcpt, rcpt_res.reply))
             elif isinstance(rcpt_res, TransientRelayError):
                 tempfails.append((rcpt, rcpt_res.reply))
